@@ -7,7 +7,9 @@ per grading (JSON on stdout).  Started by harness/c13.py as a subprocess:
 A "fresh interpreter" result is this worker given a single grading.
 
 A grading is {"script": str, "code": str, "env": "standard"|"blockpy"|"terminal"|"gradescope",
-              "skip_tifa": bool, "skip_run": bool, "main_file": str}
+              "skip_tifa": bool, "skip_run": bool, "main_file": str,
+              "files": {name: text} (other files of the submission), "share": "sub"|"files", "share_id": str,
+              "report_id": str (the grading uses the caller's own Report object of that name instead of MAIN_REPORT)}
 and is executed exactly the way the command line does: Bundle(config, script, Submission).run_ics_bundle().
 """
 import argparse
@@ -48,19 +50,111 @@ def canon_result(bundle, exc):
     return out
 
 
+#: objects the CALLER of the gradings owns and hands in again: share id -> {"files": dict, "sub": Submission, "pristine": snapshot}
+CALLER = {}
+
+
+def snapshot(sub, files):
+    """everything a caller can see of the objects it handed in"""
+    out = {"files_dict": dict(files)}
+    if sub is not None:
+        out.update({"main_file": sub.main_file, "main_code": sub.main_code, "files": dict(sub.files),
+                    "files_is_callers": sub.files is files,
+                    "line_offsets": dict(getattr(sub, "line_offsets", None) or {}),
+                    "instructor_file": sub.instructor_file, "load_error": repr(sub.load_error),
+                    "user": repr(sub.user), "assignment": repr(sub.assignment), "course": repr(sub.course),
+                    "execution": repr(sub.execution)})
+    return out
+
+
+def changed(now, pristine):
+    return sorted(k for k in set(now) | set(pristine) if now.get(k) != pristine.get(k))
+
+
+def caller_objects(g):
+    """-> (Submission to grade, files dict, pristine snapshot).  "share": "sub" = the caller grades the SAME Submission
+    object again, "files" = a new Submission every time around the SAME files dict, absent = fresh objects."""
+    from pedal.core.submission import Submission
+    main_file = g.get("main_file", "answer.py")
+    mode, sid = g.get("share"), g.get("share_id")
+    slot = CALLER.get(sid) if mode else None
+    if slot is None:
+        files = {main_file: g["code"]}
+        files.update(g.get("files") or {})
+        slot = {"files": files, "sub": None, "pristine": None}
+        if mode:
+            CALLER[sid] = slot
+    files = slot["files"]
+    if mode == "sub" and slot["sub"] is not None:
+        sub = slot["sub"]
+    elif g.get("files") or mode:
+        sub = Submission(files=files, main_file=main_file, instructor_file="instructor.py")
+        slot["sub"] = sub
+    else:
+        sub = Submission(main_file=main_file, main_code=g["code"], instructor_file="instructor.py")
+        files = sub.files
+        slot["files"] = files
+    if slot["pristine"] is None:
+        slot["pristine"] = snapshot(sub, files)
+    return sub, files, slot["pristine"]
+
+
+#: Report objects the caller made itself and passes explicitly (report=...) to every grading: report id -> Report
+REPORTS = {}
+
+
+class Direct:
+    """one grading with the CALLER'S OWN Report object R in the place of MAIN_REPORT: the standard environment built
+    with report=R, the script executed with R in its namespace, resolved with simple.resolve(report=R) unless the
+    script resolved - the steps of Bundle.run_ics_bundle, which itself can only use MAIN_REPORT"""
+    def __init__(self, script, sub, rid):
+        self.script, self.sub, self.rid, self.result = script, sub, rid, None
+
+    def run(self, skip_tifa, skip_run):
+        from types import SimpleNamespace
+        from pedal.core.report import Report
+        from pedal.environments.standard import StandardEnvironment
+        from pedal.resolvers import simple
+        if self.rid not in REPORTS:
+            REPORTS[self.rid] = Report()
+        rep = REPORTS[self.rid]
+        env = StandardEnvironment(files=self.sub, report=rep, skip_tifa=skip_tifa, skip_run=skip_run)
+        data = dict(env.fields)
+        data["R"] = rep
+        captured, error, resolution = io.StringIO(), None, None
+        with contextlib.redirect_stdout(captured):
+            try:
+                exec(compile(self.script, self.sub.instructor_file, "exec"), data)
+                resolution = rep.resolves[-1] if rep.resolves else simple.resolve(report=rep)
+            except Exception as e:      # noqa: BLE001
+                error = e
+        self.result = SimpleNamespace(output=captured.getvalue(), error=error, resolution=resolution)
+
+
 def grade(g):
     from pedal.command_line.modes import Bundle
-    from pedal.core.submission import Submission
     cfg = argparse.Namespace(threaded=False, resolver="resolve")
-    sub = Submission(main_file=g.get("main_file", "answer.py"), main_code=g["code"], instructor_file="instructor.py")
-    b = Bundle(cfg, g["script"], sub)
-    b.environment = g.get("env", "standard")
+    sub, files, pristine = caller_objects(g)
+    before = changed(snapshot(sub, files), pristine)
     exc = None
-    try:
-        b.run_ics_bundle(resolver="resolve", skip_tifa=bool(g.get("skip_tifa")), skip_run=bool(g.get("skip_run")))
-    except (Exception, SystemExit) as e:      # noqa: BLE001  (the environment failed / the script called sys.exit: part of the result)
-        exc = e
-    return canon_result(b, exc)
+    if g.get("report_id"):
+        b = Direct(g["script"], sub, g["report_id"])
+        try:
+            b.run(bool(g.get("skip_tifa")), bool(g.get("skip_run")))
+        except (Exception, SystemExit) as e:      # noqa: BLE001
+            exc = e
+    else:
+        b = Bundle(cfg, g["script"], sub)
+        b.environment = g.get("env", "standard")
+        try:
+            b.run_ics_bundle(resolver="resolve", skip_tifa=bool(g.get("skip_tifa")), skip_run=bool(g.get("skip_run")))
+        except (Exception, SystemExit) as e:      # noqa: BLE001  (the environment failed / the script called sys.exit: part of the result)
+            exc = e
+    out = canon_result(b, exc)
+    # what the caller finds in the objects it handed in, relative to how it made them
+    out["caller_before"] = before
+    out["caller_after"] = changed(snapshot(sub, files), pristine)
+    return out
 
 
 def main():
